@@ -55,10 +55,11 @@ class JP_Abs(JumpInstruction):
         first, *rest = self.operands()
         assert len(rest) == 0, "Expected no extra operands"
         assert isinstance(first, HasWidth), f"Expected HasWidth, got {type(first)}"
+        dst_mode, _src_mode = self._addressing_modes()
         if first.width() >= 3:
-            return first.lift(il)
+            return first.lift(il, dst_mode)
         high_addr = addr & 0xFF0000
-        return il.or_expr(3, first.lift(il), il.const(3, high_addr))
+        return il.or_expr(3, first.lift(il, dst_mode), il.const(3, high_addr))
 
     def analyze(self, info: InstructionInfo, addr: int) -> None:
         super().analyze(info, addr)
@@ -1148,10 +1149,13 @@ class ExchangeInstruction(Instruction):
         first, second = self.operands()
         assert isinstance(first, HasWidth), f"Expected HasWidth, got {type(first)}"
         width = first.width()
+        # Honour the PRE-selected internal-memory addressing modes, exactly
+        # as render() does for the same operands.
+        dst_mode, src_mode = self._addressing_modes()
         tmp = TempReg(TempExchange, width=width)
-        tmp.lift_assign(il, first.lift(il))
-        first.lift_assign(il, second.lift(il))
-        second.lift_assign(il, tmp.lift(il))
+        tmp.lift_assign(il, first.lift(il, dst_mode))
+        first.lift_assign(il, second.lift(il, src_mode), dst_mode)
+        second.lift_assign(il, tmp.lift(il), src_mode)
 
     def encode(self, encoder: Encoder, addr: int) -> None:
         op1, op2 = self.operands()
